@@ -477,6 +477,7 @@ class Interp:
             if isinstance(n, (ast.Yield, ast.YieldFrom)):
                 raise Unsupported('yield inside loop over symbolic list (needs an invariant)')
         tag = ctx.fresh('loop')
+        ctx.notes.setdefault('havoc_loops', {})[tag] = lst
 
         def havoc(name, v):
             if isinstance(v, bool) or isinstance(v, SBool):
